@@ -4,6 +4,16 @@ Oracle: metamorphic, self-referential: the same real parser run under a baseline
 variant configurations must give the same outcome triple (ok/fail, AST, error class); plus the
 event log of a semantics-object probe: with memoization on, the multiset of action events is a
 sub-multiset of the one with memoization off.  DESIGN.md section 3/C04.
+
+Long-input / cache-pressure family (`long_family`): the capacity of the memo cache follows the number of
+LINES of the input and perlinememos, so a tiny cache only bites on inputs of thousands of tokens.  Per shard
+two grammars (a layered left-recursive expression grammar with a layer whose rule uses its own left operand
+in two alternatives sharing a prefix; in rotation: layered left-recursive grammars of other kinds, statement
+lists with retry shapes, the nested family and random retry grammars wrapped in a closure) are run on inputs
+of 1 500 - 6 000 tokens (big bracketed lists as one operand, long operator chains, parentheses nested within
+the recursion limit; on one line and on many lines of 1-6 tokens) under baseline, one tiny-cache
+configuration, one rotating configuration (pruning off, trace, all together) and memoization off where
+allowed.  Same oracle; ASTs are compared by an iterative fingerprint (the trees are thousands of levels deep).
 """
 from __future__ import annotations
 
@@ -27,19 +37,33 @@ RULE = ('cases = (grammar, input, configuration): random grammars biased to retr
         'consume, one rule reachable at a position through two callers, cuts before a later failure, @name + keywords, long single-line inputs) '
         'and layered left-recursive grammars; each input parsed by the real model under defaults and under {memoization off (non-left-recursive '
         'only), perlinememos 0.01 / 1, prune_memos_on_cut off, trace on (output discarded), trace+colorize, parseinfo on}; non-trivial = memoization '
-        'observably mattered (fewer action events with memoization on than off) or the memo cache evicted/pruned; distinct by (grammar text, input)')
+        'observably mattered (fewer action events with memoization on than off) or the memo cache evicted/pruned; distinct by (grammar text, input); '
+        'plus the long-input family: per shard 2 grammars (left-recursive expression grammars with a shared-prefix layer `e: e a m b m | e a m | next`, '
+        'other layered left-recursive kinds, retry statement lists, nested and random retry grammars under a closure) x 2-3 inputs of 1 500-6 000 '
+        'tokens (big bracketed list as the left/middle/right operand of the long or short form, biased to the retry shape; operator chains; deep '
+        'parentheses; one line / lines of 1-6 tokens) x {baseline, perlinememos 1 or 0.01, one of pruning off / trace / trace+colorize / all / '
+        'tiny+pruning off, memoization off if not left recursive}; non-trivial there = entries were evicted or rule bodies ran again')
 ASSUMPTIONS = [
     'the baseline configuration is the reference (self-referential relation); which answer is right is C01\'s business',
     'parseinfo on: ASTs are compared after deleting exactly the parseinfo entries',
     'trace output goes to sys.stderr (replaced by a counting sink during the parse)',
+    'long-input family: ASTs are compared through a non-recursive fingerprint with the equivalence of ref.canon (lists = tuples, dict key '
+    'order ignored, parseinfo entries deleted); a RecursionError of either run is counted and not compared (stack depth is not in the statement)',
+    'long-input family: evictions are read from the BoundedDict evidence probe and re-executions from a counting semantics object; both are '
+    'evidence of pressure, not verdicts',
 ]
 FLOORS = {
     'quick': {'cases': 12000, 'memo_mattered': 2500, 'cfg:memo_off': 8000, 'cfg:plm_0.01': 10000, 'cfg:trace': 10000,
               'cfg:trace_color': 10000, 'cfg:parseinfo': 10000, 'cfg:noprune': 10000, 'lrec_cases': 1000,
-              'trace_chars': 100000, 'trace_escapes': 1000, 'accepted': 4000, 'failed': 3000, 'similar_rule_names': 500, 'nested_family': 150, 'error_class_family': 100, 'nested_family_with_nomemo_or_nostak': 80, 'failing_semantics_mattered': 2000, 'cfg_failing:memo_off': 8000},
-    'thorough': {'cases': 250000, 'memo_mattered': 50000, 'lrec_cases': 20000},
+              'trace_chars': 100000, 'trace_escapes': 1000, 'accepted': 4000, 'failed': 3000, 'similar_rule_names': 500, 'nested_family': 150, 'error_class_family': 100, 'nested_family_with_nomemo_or_nostak': 80, 'failing_semantics_mattered': 2000, 'cfg_failing:memo_off': 8000,
+              # long inputs under cache pressure
+              'long_cases': 60, 'long_lrec_parses': 70, 'long_lrec_accepted': 35, 'long_many_lines': 35, 'long_one_line': 20,
+              'long_kind:lrec_shared_prefix': 30, 'long_shared_prefix_biglist:short:1:many_lines': 6, 'long_cases_under_pressure': 35,
+              'long_lrec_parses_with_evictions': 30, 'long_evictions': 50000, 'long_max_tokens': 5500, 'long_nonlrec_cases': 12},
+    'thorough': {'cases': 250000, 'memo_mattered': 50000, 'lrec_cases': 20000, 'long_cases': 400, 'long_lrec_parses': 500,
+                 'long_cases_under_pressure': 250, 'long_max_tokens': 4500},
 }
-PEAK_COUNTERS = ('max_memo_len_over_capacity',)
+PEAK_COUNTERS = ('max_memo_len_over_capacity', 'long_max_tokens', 'long_max_lines')
 N = {'quick': 2600, 'thorough': 56000}
 
 
@@ -326,12 +350,14 @@ def relation(a, b):
 # left operand in two alternatives that share a prefix, `e: e '?' m ':' m | e '?' m | next` --, statement lists with retry
 # shapes, the nested family, random retry grammars; bracketed lists and parentheses nested within the recursion limit) and
 # parses inputs of 1 500 - 6 000 tokens under the cache configurations.  Oracle unchanged: same outcome as the baseline.
-LONG_TOKENS_PER_LINE = [2, 4, 3, 2, 6, 1]
+LONG_TOKENS_PER_LINE = [2, 3, 2, 4, 2, 3, 1, 6]
 LONG_BINOPS = ['+', '*', '-', '/', '|', '%']
 LONG_TERNOPS = [('?', ':'), ('!', '^'), ('<', '>')]
 LONG_LAYER_KINDS = ['direct', 'both', 'ternary', 'twoops', 'aliased2']
 # (form, position of the big operand): long form `c ? a : b`, short form `c ? a`
-LONG_BIG_FORMS = [('short', 1), ('long', 1), ('short', 0), ('long', 2), ('long', 0)]
+# biased to the retry shape: the short form with the big operand in the middle is the input on which the first alternative
+# fails only after the long operand, and the second alternative then asks for the rule's own left operand again
+LONG_BIG_FORMS = [('short', 1), ('long', 1), ('short', 1), ('short', 0), ('long', 2), ('short', 1), ('long', 0)]
 LONG_ROTATING = [
     ('noprune', {'prune_memos_on_cut': False}),
     ('trace', {'trace': True, 'colorize': False}),
@@ -730,7 +756,7 @@ def check_long_case(acc, g, model, text, lrec, rot, origin, meta):
 LONG_OTHER = ['lrec_layered', 'retry_statements', 'nested', 'retry_random']
 LONG_BIG_SIZES = [1500, 1700, 2000, 2400, 1600, 1800]
 LONG_CHAIN_SIZES = [2000, 3000, 4500, 2500]
-LONG_CHEAP_SIZES = [1500, 2000, 3000, 2000, 6000, 1500, 2500, 2000]
+LONG_CHEAP_SIZES = [1500, 2000, 3000, 2000, 1500, 6000, 2500, 2000]   # (6000 falls on the statement lists: shards 5 and 13)
 
 
 def long_accepting(rng, make, item_of, tries=8):
@@ -939,7 +965,9 @@ MANIFEST = {
     'technique': 'runtime monitoring: metamorphic relation between configurations of the same real parser + offline sub-multiset check of recorded semantic-action event logs',
     'level_text': 'each (grammar, input) is parsed by the real model under the default and eight variant configurations; outcome triples must be '
                   'equal and the action-event multiset with memoization on must be contained in the one with memoization off; the workload is biased '
-                  'to shapes where memoization, eviction and pruning matter and reports how often they did',
+                  'to shapes where memoization, eviction and pruning matter and reports how often they did; a long-input family (1 500-6 000 tokens on one '
+                  'line and on many lines, left-recursive grammars with shared-prefix alternatives included) puts the line-derived cache capacity under '
+                  'pressure and reports evictions and re-executions',
     'level_note': 'self-referential (baseline = defaults), so it cannot tell which answer is right (C01 does); evidence probes on BoundedDict are '
                   'not verdicts; held = no divergence on the executions listed',
 }
